@@ -12,6 +12,7 @@ class D(RenderDriver):
     pid = "C06"
     mode = "color"
     color_tol = 6e-3
+    steep_probe = 3e-3  # root units; see conv.compare_colors
     rule = (
         "cases: linear and radial gradients (numbers and percentages, both gradientUnits, gradientTransform lists incl. rotation/skew/"
         "translation, all spread methods, focal points inside the end circle, fr, href chains contributing attributes and/or stops) filling "
